@@ -377,3 +377,44 @@ Definition fw_fun (is_sqrt : bool) (res thr x : R) : R :=
   if Rltb x thr then x
   else if Rltb thr x then IZR (rhe ((if is_sqrt then sqrt (x - thr) else ln (x - thr)) * res))
   else 0%R.
+
+(* ------------------------------------------------------------------------------------------ *)
+(* Hand-written reading of the names of the default preset (the specification the translated    *)
+(* formulas are held against in the C12_named theorems); xs is the column, x the element       *)
+Local Open Scope R_scope.
+
+Definition rd_sqrt (xs : list R) (x : R) : option R := if Rltb x 0 then None else Some (sqrt x).
+Definition rd_log_x1 (xs : list R) (x : R) : option R := if Rltb (-1) x then Some (ln (x + 1)) else None.
+Definition rd_sqrt_abs (xs : list R) (x : R) : option R := Some (sqrt (Rabs x)).
+Definition rd_log_abs1 (xs : list R) (x : R) : option R := Some (ln (Rabs x + 1)).
+(* div(x,abs(x))*log(abs(x)) = sign(x) * log|x|, undefined at 0 *)
+Definition rd_sign_log (xs : list R) (x : R) : option R :=
+  if Reqb x 0 then None else Some (if Rltb 0 x then ln x else - ln (- x)).
+(* log(x + sqrt(x^2 + 1)) = arcsinh x, defined everywhere *)
+Definition rd_arcsinh (xs : list R) (x : R) : option R := Some (arcsinh x).
+Definition rd_log_sqrt (xs : list R) (x : R) : option R :=
+  if Rltb x 0 then None else Some (ln (x + 1) * sqrt x).
+Definition rd_log100 (xs : list R) (x : R) : option R :=
+  if Rltb (-1) x then Some (IZR (rhe (ln (x + 1) * 100))) else None.
+Definition rd_nonzero (xs : list R) (x : R) : option R := Some (if Reqb x 0 then 0 else 1).
+Definition rd_round_div_max (xs : list R) (x : R) : option R :=
+  match list_max xs with
+  | None => None
+  | Some m => if Reqb m 0 then None else Some (IZR (rhe (x / m)))
+  end.
+
+Definition nm_sqrt := s2l "_tr_sqrt"%string.
+Definition nm_log_x1 := s2l "_tr_log(x+1)"%string.
+Definition nm_sqrt_abs := s2l "_tr_sqrt(abs(x))"%string.
+Definition nm_log_abs1 := s2l "_tr_log(abs(x)+1)"%string.
+Definition nm_sign_log := s2l "_tr_div(x,abs(x))*log(abs(x))"%string.
+Definition nm_arcsinh := s2l "_tr_log(x + sqrt(pow(x,2), 1)"%string.
+Definition nm_log_sqrt := s2l "_tr_log*sqrt"%string.
+Definition nm_log100 := s2l "_tr_log*100"%string.
+Definition nm_nonzero := s2l "_tr_nonzero"%string.
+Definition nm_round_div_max := s2l "_tr_round(div(x,max))"%string.
+
+Definition readings : list (str * (list R -> R -> option R)) :=
+  [(nm_sqrt, rd_sqrt); (nm_log_x1, rd_log_x1); (nm_sqrt_abs, rd_sqrt_abs); (nm_log_abs1, rd_log_abs1);
+   (nm_sign_log, rd_sign_log); (nm_arcsinh, rd_arcsinh); (nm_log_sqrt, rd_log_sqrt);
+   (nm_log100, rd_log100); (nm_nonzero, rd_nonzero); (nm_round_div_max, rd_round_div_max)].
